@@ -155,6 +155,8 @@ fn boundary_product(h: &crate::harvest::Harvest, tier: Tier) -> (Vec<String>, Ve
         "it's fine; its owner left. its over.",
         ", he said. and left.",
         "He lives on Main. he is happy.",
+        "3 birds sat on the fence. They sang loudly.",
+        "7 of them left early. The rest stayed.",
     ]
     .iter()
     .map(|s| s.to_string())
